@@ -225,6 +225,24 @@ def run(ctx):
     ctx.l1()
     if not (ctx.ensure_driver() and ctx.ensure_harness()):
         return
+    # entries written by the real Commander under concurrency: the row ledgerstore.Store.InsertLogs would write (encoded when the
+    # entry reaches the store) must read back, through Logs.ToCore, to an entry that re-hashes to its stored hash
+    replay_area = None
+    if ctx.replay_file:
+        replay_area = (json.load(open(ctx.replay_file)).get("replay") or {}).get("area")
+    if replay_area in (None, "engine"):
+        from checks import enginelib
+        er = enginelib.run_engine(ctx, 60 if ctx.quick else 600)
+        if er is not None:
+            e_inputs, e_impl, _ = er
+            e_runs, _ = enginelib.evaluate(ctx, "C13", e_inputs, e_impl, lambda scn, run: False)
+            stored = sum(1 for scn in e_inputs for run in e_impl.get(scn["id"], {}).get("runs", []) for l in run.get("durable", []) if "stored_ok" in l)
+            ctx.cov["entries_written_by_the_commander"] = {"runs": e_runs, "stored_rows_read_back_and_rehashed": stored,
+                                                           "rule": "engine scenarios under the deterministic scheduler (requests overlapping between commit and InsertLogs, "
+                                                                   "restarts, store failures); each durable entry is encoded as InsertLogs does at the moment it is inserted"}
+        if replay_area == "engine":
+            ctx.cov["evaluations"] = ctx.cov.get("entries_written_by_the_commander", {}).get("stored_rows_read_back_and_rehashed", 0)
+            return
     n = 1200 if ctx.quick else 6000
     r = pipeline(ctx, AREA, n, timeout=3000)
     if r is None:
@@ -305,7 +323,8 @@ def run(ctx):
                 seen.add(h)
         elif inp["kind"] == "time":
             dist["time_cases"]["accepted" if "ok" in out else "refused"] += 1
-    ctx.cov["evaluations"] = n_entries + len(kinds.get("time", [])) + len(kinds.get("sha", [])) + len(raws)
+    ctx.cov["evaluations"] = (n_entries + len(kinds.get("time", [])) + len(kinds.get("sha", [])) + len(raws) +
+                              ctx.cov.get("entries_written_by_the_commander", {}).get("stored_rows_read_back_and_rehashed", 0))
     ctx.cov["log_entries"] = n_entries
     ctx.cov["log_entries_refused_at_input"] = n_refused
     ctx.cov["chains"] = len(chains)
